@@ -172,21 +172,63 @@ theorem len_delete {s : MSet α} (x : α) (hx : x ∈ elems s) : len (delete s x
 theorem any_has_iff (l : List α) (t : MSet α) : l.any (has t) = true ↔ ∃ x, x ∈ l ∧ x ∈ elems t := by
   simp [List.any_eq_true]
 
+/-! ### the predicates with the pinned shortcut conditions of `Gen.Mapset` written out
+
+`Model.Mapset` takes the size tests of `Intersects`, `HasAll`, `HasAny`, `IsSubset`, `Equals` from
+`Gen.Mapset` (regenerated from mapset.go on every run); the proofs unfold these five functions only
+through the lemmas below, which stop compiling when one of the tests changes. -/
+section defs
+open MdsVerif
+
+private theorem dec_gt (a b : Nat) : (decide ((a : Int) > (b : Int)) = true) = (a > b) := by
+  rw [decide_eq_true_eq]; apply propext; omega
+private theorem dec_eq0 (a : Nat) : (decide ((a : Int) = 0) = true) = (a = 0) := by
+  rw [decide_eq_true_eq]; apply propext; omega
+private theorem dec_ne (a b : Nat) : (decide ((a : Int) ≠ (b : Int)) = true) = (a ≠ b) := by
+  rw [decide_eq_true_eq]; apply propext; omega
+
+theorem intersects_def (s t : MSet α) :
+    intersects s t = (let (lo, hi) := if len s > len t then (t, s) else (s, t); (elems lo).any (has hi)) := by
+  unfold intersects Gen.Mapset.intersectsSwaps; simp only [dec_gt]
+
+theorem hasAll_def (s : MSet α) (ts : List α) :
+    hasAll s ts = if len s = 0 then ts.length == 0 else ts.all (has s) := by
+  unfold hasAll Gen.Mapset.hasAllEmpty Gen.Mapset.hasAllEmptyResult
+  simp only [dec_eq0]
+  split
+  · cases ts with
+    | nil => rfl
+    | cons a l => simp; omega
+  · rfl
+
+theorem hasAny_def (s : MSet α) (ts : List α) :
+    hasAny s ts = if len s = 0 then false else ts.any (has s) := by
+  unfold hasAny Gen.Mapset.hasAnyEmpty; simp only [dec_eq0]
+
+theorem isSubset_def (s t : MSet α) :
+    isSubset s t = if len s = 0 then true else if len s > len t then false else (elems s).all (has t) := by
+  unfold isSubset Gen.Mapset.isSubsetEmpty Gen.Mapset.isSubsetTooBig; simp only [dec_eq0, dec_gt]
+
+theorem equals_def (s t : MSet α) :
+    equals s t = if len s ≠ len t then false else (elems s).all (has t) := by
+  unfold equals Gen.Mapset.equalsDiffer; simp only [dec_ne]
+end defs
+
 theorem all_has_iff (l : List α) (t : MSet α) : l.all (has t) = true ↔ ∀ x, x ∈ l → x ∈ elems t := by
   simp [List.all_eq_true]
 
 theorem intersects_iff (s t : MSet α) :
     intersects s t = true ↔ ∃ x, x ∈ elems s ∧ x ∈ elems t := by
   by_cases h : len s > len t
-  · have : intersects s t = (elems t).any (has s) := by simp [intersects, h]
+  · have : intersects s t = (elems t).any (has s) := by simp [intersects_def, h]
     rw [this, any_has_iff]
     constructor <;> rintro ⟨x, h1, h2⟩ <;> exact ⟨x, h2, h1⟩
-  · have : intersects s t = (elems s).any (has t) := by simp [intersects, h]
+  · have : intersects s t = (elems s).any (has t) := by simp [intersects_def, h]
     rw [this, any_has_iff]
 
 theorem hasAll_iff (s : MSet α) (ts : List α) :
     hasAll s ts = true ↔ ∀ x, x ∈ ts → x ∈ elems s := by
-  unfold hasAll
+  rw [hasAll_def]
   split
   · rename_i h0
     rw [(len_eq_zero_iff s).mp h0]
@@ -201,7 +243,7 @@ theorem hasAll_iff (s : MSet α) (ts : List α) :
 
 theorem hasAny_iff (s : MSet α) (ts : List α) :
     hasAny s ts = true ↔ ∃ x, x ∈ ts ∧ x ∈ elems s := by
-  unfold hasAny
+  rw [hasAny_def]
   split
   · rename_i h0
     rw [(len_eq_zero_iff s).mp h0]
@@ -214,7 +256,7 @@ theorem length_le_of_subset {l₁ l₂ : List α} (d : l₁.Nodup) (h : ∀ x, x
 
 theorem isSubset_iff (s t : MSet α) (hs : WF s) :
     isSubset s t = true ↔ ∀ x, x ∈ elems s → x ∈ elems t := by
-  unfold isSubset
+  rw [isSubset_def]
   split
   · rename_i h0
     rw [(len_eq_zero_iff s).mp h0]
@@ -235,7 +277,7 @@ theorem perm_of_same_members {l₁ l₂ : List α} (d₁ : l₁.Nodup) (d₂ : l
 
 theorem equals_iff (s t : MSet α) (hs : WF s) (ht : WF t) :
     equals s t = true ↔ ∀ x, x ∈ elems s ↔ x ∈ elems t := by
-  unfold equals
+  rw [equals_def]
   split
   · rename_i hne
     constructor
